@@ -3,8 +3,8 @@ from pyvc.contracts import contract, Loop
 from pyvc import tys as T
 
 PM = "maze_dataset/plotting/plot_maze.py"
-# unit_length: the default 14 and two small values (the index arithmetic `row * unit_length` is linear only for a constant)
-UL = T.OneOf(T.Const(14), T.Const(3), T.Const(4))
+# unit_length: the default 14 and four small values (the index arithmetic `row * unit_length` is linear only for a constant)
+UL = T.OneOf(T.Const(14), T.Const(3), T.Const(4), T.Const(5), T.Const(8))
 PLOT = T.RecT("MazePlot", maze=T.Maze(), unit_length=UL, node_values=T.Const(None))
 
 
